@@ -37,6 +37,7 @@ type vSimEvent struct {
 	Delay int64          `json:"delay"`  // ms: min delay
 	Jit   int64          `json:"jitter"` // ms
 	Tmo   int64          `json:"timeout"`
+	Count int            `json:"count"` // burst: number of user messages
 }
 
 type vSimPlan struct {
@@ -53,6 +54,7 @@ type vSimPlan struct {
 	Proto          int         `json:"proto"`
 	Reclaim        int64       `json:"reclaim"`    // ms
 	GossipDead     int64       `json:"gossipDead"` // ms; 0 = the family's value
+	SlowMsg        int64       `json:"slowMsg"`    // ms the application takes per user message
 	Events         []vSimEvent `json:"events"`
 	EndAt          int64       `json:"endAt"`
 	Settle         int64       `json:"settle"`
@@ -137,7 +139,7 @@ func (v *vSim) startNode(name string) *vSimNode {
 	nd, ok := v.nodes[name]
 	if !ok {
 		idx := len(v.nodes) + 1
-		nd = &vSimNode{name: name, ip: net.IPv4(10, 0, byte(idx/250), byte(idx%250+1)).To4(), md: &vMetaDelegate{}}
+		nd = &vSimNode{name: name, ip: net.IPv4(10, 0, byte(idx/250), byte(idx%250+1)).To4(), md: &vMetaDelegate{slow: time.Duration(v.plan.SlowMsg) * time.Millisecond}}
 		nd.meta = "m-" + name + "-0"
 		nd.md.set([]byte(nd.meta))
 		v.nodes[name] = nd
@@ -303,6 +305,24 @@ func (v *vSim) exec(e vSimEvent) {
 		nd.up = false
 		v.s.unregister(nd.m)
 		_ = nd.m.Shutdown()
+	case "burst":
+		// user messages (best effort) from one member to another
+		to := v.nodes[e.To]
+		if nd == nil || !nd.up || nd.left || to == nil || !to.up {
+			return
+		}
+		var dst *Node
+		for _, mm := range nd.m.Members() {
+			if mm.Name == e.To {
+				dst = mm
+			}
+		}
+		if dst == nil {
+			return
+		}
+		for i := 0; i < e.Count; i++ {
+			_ = nd.m.SendBestEffort(dst, []byte(fmt.Sprintf("user-%s-%d", e.Node, i)))
+		}
 	case "update":
 		if nd == nil || !nd.up || nd.left {
 			return
